@@ -1060,6 +1060,110 @@ func c11TargetedStore(r *ev.Run) {
 		r.Count("targeted:add-vs-close:"+point, 1)
 		r.Eval(true, ev.Digest("t3b", point, ci))
 	})
+	// (iii-c) a Remove is held between choosing the writable memtable and removing from it, and that memtable is rotated
+	// out and flushed beside it (explicit Flush, or adds that overflow a tiny memtable with the background flush on).
+	// Whatever the Remove then answers has to be true: acknowledged -> the document is gone from every later search;
+	// refused -> the document is still there. The bystander documents stay.
+	removeBeside := []string{"flush", "rotating-adds", "flush-twice"}
+	r.Cases("targeted-remove-vs-flush", r.Pick(2, 8)*len(removeBeside), func(ci int, rng *rand.Rand) {
+		dir, err := os.MkdirTemp("", "verif-c11r-*")
+		if err != nil {
+			panic(err)
+		}
+		defer os.RemoveAll(dir)
+		beside := removeBeside[ci%len(removeBeside)]
+		p := storeParams{VecKind: "flat", Text: true, Meta: true, Dim: 2, Metric: comet.Euclidean, CompactionThreshold: 1000, MemtableSizeLimit: 1 << 20, FlushThreshold: 1 << 40}
+		if beside == "rotating-adds" {
+			p.MemtableSizeLimit, p.FlushThreshold = 1500, 1
+		}
+		s, err := p.open(dir)
+		if err != nil {
+			return
+		}
+		fail := func(sig, what string) {
+			r.ViolationAt("targeted-remove-vs-flush", ci, sig, fmt.Sprintf("Remove held at store.remove.picked, beside it %s: %s", beside, what), nil)
+		}
+		base := uint32(1<<28 + 1<<23 + ci<<8)
+		present, ever := map[uint32]bool{}, map[uint32]bool{}
+		nPre := 2 + ci/len(removeBeside)%3
+		for i := 0; i < nPre; i++ {
+			d := genStoreDoc(rng, p, base+uint32(i), "pre")
+			if s.AddWithID(d.ID, d.Vec, d.Text, d.Meta) == nil {
+				present[d.ID], ever[d.ID] = true, true
+			}
+		}
+		victim := base + uint32(rng.IntN(nPre))
+		if !present[victim] {
+			s.Close()
+			return
+		}
+		var besideDone chan struct{}
+		ctl.setTarget("store.remove.picked", 1, func(args []any) {
+			_, besideDone = runBeside(func() {
+				switch beside {
+				case "flush":
+					s.Flush()
+				case "flush-twice":
+					s.Flush()
+					s.Flush()
+				case "rotating-adds":
+					for i := 0; i < 12; i++ {
+						d := genStoreDoc(rng, p, base+100+uint32(i), "late")
+						if s.AddWithID(d.ID, d.Vec, d.Text, d.Meta) == nil {
+							present[d.ID], ever[d.ID] = true, true
+						}
+					}
+					s.Flush()
+				}
+			}, 400*time.Millisecond)
+		})
+		errR := s.Remove(victim)
+		fired := ctl.fired()
+		ctl.clearTarget()
+		if !fired || besideDone == nil {
+			s.Close()
+			r.Inconclusive("store.remove.picked not reached")
+			return
+		}
+		select {
+		case <-besideDone:
+		case <-time.After(60 * time.Second):
+			fail("conc.store.deadlock-or-hang", "the flush running beside a Remove did not return within 60 s after the Remove returned")
+			return
+		}
+		if errR == nil {
+			delete(present, victim)
+			r.Count("targeted:remove-vs-flush:remove-acknowledged", 1)
+		} else {
+			r.Count("targeted:remove-vs-flush:remove-refused", 1)
+		}
+		check := func(when string) {
+			a := searchAllModalities(s, p)
+			if a.Err != nil {
+				fail("conc.store.search-error", when+": "+a.Err.Error())
+				return
+			}
+			missing, _ := a.check(present, ever)
+			if len(missing) > 0 {
+				fail("conc.store.acknowledged-write-lost", fmt.Sprintf("%s: documents whose add completed and that nobody removed successfully are missing: %v (Remove(%d) -> %v)", when, missing, victim, errR))
+			}
+			if errR == nil {
+				for name, got := range map[string]map[uint32]bool{"vector": a.Vec, "text": a.Text, "metadata": a.Meta} {
+					if got[victim] {
+						fail("conc.store.removed-id-returned", fmt.Sprintf("%s: Remove(%d) returned nil, yet a %s search that began afterwards returns it", when, victim, name))
+					}
+				}
+			}
+		}
+		check("right-after")
+		if err := s.Flush(); err != nil {
+			fail("conc.store.flush-error", err.Error())
+		}
+		check("after-flush")
+		s.Close()
+		r.Count("targeted:remove-vs-flush:"+beside, 1)
+		r.Eval(true, ev.Digest("t3c", beside, ci, errR == nil))
+	})
 	// (iv) Close while the background compaction worker is between writing the merged segment and swapping it in
 	compactPoints := []string{"compact.begin", "crash:compact.create.hybrid", "crash:compact.written"}
 	r.Cases("targeted-close-vs-compaction", r.Pick(1, 5)*len(compactPoints), func(ci int, rng *rand.Rand) {
